@@ -11,12 +11,12 @@ from concurrent.futures import ThreadPoolExecutor
 
 ROOT = os.path.dirname(os.path.dirname(os.path.abspath(__file__)))
 sys.path.insert(0, ROOT)
-sys.path.insert(0, "/repo")
+sys.path.insert(0, os.environ.get("VERIF_REPO", "/repo"))   # the tree under test (default: /repo's working tree)
 
 from harness import tlc  # noqa: E402
 
 SCRATCH = os.path.join(ROOT, ".scratch")
-EVID = os.path.join(ROOT, "evidence")
+EVID = os.environ.get("VERIF_EVIDENCE_DIR") or os.path.join(ROOT, "evidence")   # (seeded runs write elsewhere)
 NCPU = min(16, os.cpu_count() or 4)
 
 
@@ -60,7 +60,7 @@ CLAUSES.update({
     "InitialisedWrong": ["C09"], "SnapshotMismatch": ["C10", "C09", "C14", "C19"],
     "MissedNotification": ["C12"], "SpuriousNotification": ["C12", "C14"], "WrongNotificationId": ["C12"],
     "NotifiedAfterUnsubscribe": ["C12"],
-    "InvalidNotRefused": ["C11", "C19"], "RefusedButSent": ["C11"], "ValidRefused": ["C11", "C19"], "CommandNotSent": ["C11", "C04"],
+    "InvalidNotRefused": ["C11", "C19"], "RefusedButSent": ["C11"], "ValidRefused": ["C11", "C19"], "CommandNotSent": ["C11", "C04", "C02"], "NonIdempotentResent": ["C02"],
     "CommandDuplicated": ["C11", "C02"], "WrongCommandFrame": ["C04", "C11", "C19"], "UnexplainedFrame": ["C01", "C04", "C09"],
     "HeartbeatMissing": ["C08"], "HeartbeatOffSchedule": ["C08"], "HeartbeatNoReset": ["C08"], "SpuriousHeartbeatReset": ["C08"],
     "RefreshMissing": ["C14"], "RefreshOrder": ["C14"], "PollMissing": ["C14"], "PollOffSchedule": ["C14"],
@@ -225,6 +225,15 @@ def lower_client(trace, blockers=()):
     meth = {}
     for ev in trace:
         e, t = ev["e"], ev["t"]
+        if e == "call" and ev.get("target") == "heartbeat":
+            meth[ev["id"]] = "hb_" + ev["method"]
+            if ev["method"] == "start":
+                out.append({"e": "hbstart", "t": t})
+            continue
+        if e == "ret" and meth.get(ev["id"], "").startswith("hb_"):
+            if meth[ev["id"]] == "hb_stop":
+                out.append({"e": "hbstop", "t": t})
+            continue
         if e == "call" and ev.get("target", "socket") != "socket":
             if ev.get("skipped"):
                 continue
